@@ -40,7 +40,7 @@ def main():
                 "evidence_file": "evidence/%s.json" % pid,
                 "replay_cmd_template": "./run.sh -replay {path}",
                 "engine": "zverif",
-                "level_claimed": {"category": "other", "text": text, "design_ref": "DESIGN.md section 3, " + pid},
+                "level_claimed": {"category": "other", "text": text, "design_ref": "DESIGN.md section 8.3 (as built) and section 3 (plan), " + pid},
                 "level_note": note,
                 "technique": "static analysis: " + tech,
             })
